@@ -171,7 +171,9 @@ def body(run, a):
         configs = ['release-std', 'release-nosimd']
         cfg_alias = [(c, al) for c in configs for al in ALIASES]
     else:
-        grid = [(o, L) for o in range(64) for L in sorted({0, 1, 64 - o, 65, 256 + (64 - o) % 64, 300, 600})]
+        # every offset in a block x the length classes, plus two dense length sweeps; the phase budget of the thorough tier decides
+        # how much of this (seed-shuffled) grid is explored in one run - the evidence records explored / skipped counts
+        grid = [(o, L) for o in range(64) for L in sorted({0, 1, 64 - o, 65, 256 + (64 - o) % 64, 330, 600})]
         grid += [(o, L) for o in (0, 37) for L in range(0, 1101, 1) if (o, L) not in grid and (L % 7 == 0 or L < 140)]
         configs = ['release-std', 'release-nosimd', 'devchk-std']
         cfg_alias = [(c, al) for c in configs for al in ALIASES]
@@ -185,6 +187,12 @@ def body(run, a):
             tasks.append((c, al, o, L))
     for c in configs:
         module(c, run)
+    if run.tier == 'thorough':
+        # phase 1: the quick tier's cases (always complete), phase 2: the rest of the grid within the phase budget
+        qgrid = [(0, 0), (0, 1), (1, 63), (63, 65), (0, 256), (5, 300), (63, 257), (0, 330), (61, 600)]
+        first = [(c, al, o, L) for c in ('release-std', 'release-nosimd') for al in ALIASES for o, L in qgrid if c == 'release-std' or (o, L) in [(1, 63), (63, 65), (5, 300), (0, 330)]]
+        check.parallel(run, case, first)
+        tasks = [t for t in tasks if t not in set(first)]
     check.parallel(run, case, tasks)
     canary(run)
     run.bounds = {'offset o in block': sorted({t[2] for t in tasks}), 'request length L': '%d distinct values, max %d' % (len({t[3] for t in tasks}), max(t[3] for t in tasks)),
